@@ -122,7 +122,22 @@ fn main() {
             writeln!(out).unwrap();
             continue;
         }
-        let r = catch_unwind(AssertUnwindSafe(|| run_line(line)));
+        // the generic value reader of the harness recurses once per nesting level of the input: hostile nesting depths are run
+        // on a thread with an ample stack, so that what is measured is pilota (its readers do not recurse), not the harness.
+        // Skippers and ApplicationException::decode run on the main thread with its ordinary 8 MiB stack: a recursion that is
+        // not depth-limited overflows it and the process dies -- reported by the driver as a crash with the input as replay.
+        let big = line.len() > 60_000 && (line.starts_with("rd ") || line.starts_with("ard "));
+        let r = if big {
+            let owned = line.to_string();
+            std::thread::Builder::new()
+                .stack_size(3usize << 30)
+                .spawn(move || catch_unwind(AssertUnwindSafe(|| run_line(&owned))))
+                .expect("spawn")
+                .join()
+                .unwrap_or(Err(Box::new(())))
+        } else {
+            catch_unwind(AssertUnwindSafe(|| run_line(line)))
+        };
         match r {
             Ok(Ok(s)) => writeln!(out, "{s}").unwrap(),
             Ok(Err(e)) => writeln!(out, "BADCASE {e}").unwrap(),
